@@ -10,6 +10,7 @@
 //	pattern.search                pattern.Search over simple and token.Provider        vs SV.Pattern.search
 //	active.find                   frac.TokenList.FindPattern (real active token list)  vs SV.Pattern.activeFind
 //	provider.get                  token.Provider.GetToken (findBlock + block cache)     vs SV.Pattern.providerGetTokens
+//	spec.leaf                     check of the real searchers                          vs SV.Spec.Leaf.valMatch (shared Spec)
 //	table.select                  token.Table.SelectEntries                            vs SV.Pattern.selectEntries
 //	sealed.search                 sealedTokenIndex.GetTIDsByTokenExpr (hand-built table) vs SV.Pattern.sealedSearch
 //
@@ -358,6 +359,24 @@ func refRange(r *rng, v []byte) bool {
 	return true
 }
 
+// specNumFragment: ParseFloat and the Spec's numVal (decimal integers -?[0-9]+) treat s alike: either a decimal
+// integer small enough to be exact in float64, or a string neither accepts.
+func specNumFragment(s string) bool {
+	digits := s
+	if strings.HasPrefix(digits, "-") {
+		digits = digits[1:]
+	}
+	isInt := len(digits) > 0
+	for i := 0; i < len(digits); i++ {
+		isInt = isInt && digits[i] >= '0' && digits[i] <= '9'
+	}
+	if isInt {
+		return len(digits) <= 15
+	}
+	_, ok := parseNum(s)
+	return !ok
+}
+
 func refMatch(t tok, v []byte) bool {
 	if t.r != nil {
 		return refRange(t.r, v)
@@ -563,8 +582,8 @@ type H struct {
 	rep *vh.Report
 	rnd *vh.RNG
 
-	chPf, chFind, chSeq, chCheck, chGlob, chParse, chRange, chSearch, chActive, chProvider, chSelect, chSealed *vh.Channel
-	orGlob, orSearch, orRange, orFrac                                                                          *vh.Oracle
+	chPf, chFind, chSeq, chCheck, chGlob, chParse, chRange, chSearch, chActive, chProvider, chSelect, chSealed, chSpec *vh.Channel
+	orGlob, orSearch, orRange, orFrac                                                                                  *vh.Oracle
 }
 
 func (h *H) violate(site, class, what string, replay ...string) {
@@ -578,6 +597,7 @@ func (h *H) opCheck(ts []term, v []byte, narrowed bool) {
 	nontriv := impl != "panic" && len(ts) > 1
 	h.chCheck.Add(req, impl, nontriv, shape(ts), "narrowed="+vh.B(narrowed), "res="+impl)
 	if !narrowed && wfTerms(ts) {
+		h.chSpec.Add(fmt.Sprintf("specleaf L/%s %s", fmtTerms(ts), hx(v)), impl, len(ts) > 1, "leaf=lit", shape(ts))
 		want := "ok " + vh.B(refGlob(ts, v))
 		h.orGlob.Case(req, len(ts) > 1, shape(ts), "match="+want[3:])
 		if impl != want {
@@ -617,6 +637,16 @@ func (h *H) opRange(r *rng, v []byte) {
 		}
 	}
 	h.chRange.Add(req, impl, r.from != nil || r.to != nil, ends, "res="+impl)
+	strs := t.numStrs([][]byte{v})
+	inFrag := true
+	for _, x := range strs {
+		inFrag = inFrag && specNumFragment(string(x))
+	}
+	if inFrag && impl != "panic" {
+		h.chSpec.Add(fmt.Sprintf("specleaf %s %s", t, hx(v)), "ok "+vh.B(ok), r.from != nil || r.to != nil, "leaf=range", ends)
+	} else {
+		h.chSpec.Tag("range-outside-numVal-fragment")
+	}
 	want := refRange(r, v)
 	h.orRange.Case(req, r.from != nil || r.to != nil, ends, "match="+vh.B(want))
 	if impl != "panic" && ok != want || impl == "panic" {
@@ -763,6 +793,7 @@ func main() {
 	h.chSearch = vh.NewChannel("pattern.search", "pattern.Search vs SV.Pattern.search over simple providers (ordered and not) and real token.Provider over hand-built tables; exhaustive small dictionaries, random larger; non-trivial = >1 token and non-empty answer")
 	h.chActive = vh.NewChannel("active.find", "real frac.TokenList (NewActiveTokenList + Append in several batches, two fields) FindPattern vs SV.Pattern.activeFind on the (tid, value) pairs read back from the list; small exhaustive and random dictionaries, literal / wildcard / range tokens; non-trivial = non-empty answer")
 	h.chProvider = vh.NewChannel("provider.get", "token.Provider.GetToken call sequences (ascending, descending, random jumps - exercising the cached-block fast path and the binary search) over hand-built tables vs SV.Pattern.providerGetTokens; all layouts of small dictionaries, random larger; non-trivial = more than one block")
+	h.chSpec = vh.NewChannel("spec.leaf", "the real pattern package (literalSearch/wildcardSearch.check, range searcher check) vs the SHARED Spec's Leaf.valMatch (Spec/Store.lean: globMatch, bytesLt/Le, numVal): every pattern over {a,b,*} x every token over {a,b} up to the length bound; ranges on the fragment where ParseFloat and Spec.numVal agree (every string involved is a decimal integer of <= 15 digits or is rejected by ParseFloat); non-trivial = wildcard pattern or a given range end")
 	h.chSelect = vh.NewChannel("table.select", "token.Table.SelectEntries vs SV.Pattern.selectEntries: every sorted dictionary over a small universe in every block layout x hints; non-trivial = >1 block and non-empty hint")
 	h.chSealed = vh.NewChannel("sealed.search", "sealedTokenIndex.GetTIDsByTokenExpr over a hand-built table with pre-loaded blocks vs SV.Pattern.sealedSearch; every dictionary <= 6 tokens over a small universe in every block layout; non-trivial = >1 block and non-empty answer")
 	h.orGlob = vh.NewOracle("glob.property", "for every well-formed term list: check(token) == reference glob; non-trivial = wildcard pattern")
@@ -792,7 +823,7 @@ func main() {
 		h.genFrac()
 	}
 
-	for _, c := range []*vh.Channel{h.chPf, h.chFind, h.chSeq, h.chCheck, h.chGlob, h.chParse, h.chRange, h.chSearch, h.chActive, h.chProvider, h.chSealed} {
+	for _, c := range []*vh.Channel{h.chPf, h.chFind, h.chSeq, h.chCheck, h.chGlob, h.chParse, h.chRange, h.chSearch, h.chActive, h.chProvider, h.chSealed, h.chSpec} {
 		if o.Only == "" || o.Only == c.Name {
 			rep.AddChannel(c, o.Driver)
 		}
